@@ -3,15 +3,16 @@
 # that property, record exit code and the VIOLATION lines in seeded/<ID>/check_output.txt, and restore /repo straight afterwards.
 # Expected: exit 1 with at least one VIOLATION line for every seed. Nothing is committed to /repo.
 VERIF="$(cd "$(dirname "$0")/.." && pwd)"; cd "$VERIF"
-IDS="${*:-$(ls seeded | grep '^C[0-9][0-9]$')}"
+IDS="${*:-$(ls seeded | grep '^C[0-9][0-9]b\?$')}"
 exec 9>/tmp/verif_repo.lock; flock 9
 RC=0
 for id in $IDS; do
   git -C /repo status --porcelain --untracked-files=no | grep -q . && { echo "/repo has uncommitted changes"; exit 2; }
   git -C /repo apply "$VERIF/seeded/$id/patch.diff" || { echo "$id apply FAILED"; RC=1; continue; }
-  OUT="$(./check $id --tier quick 2>&1)"; E=$?
+  P=${id:0:3}   # seeded/C07b is a second seed for property C07
+  OUT="$(./check $P --tier quick 2>&1)"; E=$?
   git -C /repo checkout -- .
-  { echo "# ./check $id --tier quick   on /repo with seeded/$id/patch.diff applied"; echo "exit=$E"; echo "$OUT" | grep -A2 '^VIOLATION' | cut -c1-600 | head -30; echo "$OUT" | grep "^$id quick" ; } > "seeded/$id/check_output.txt"
+  { echo "# ./check $P --tier quick   on /repo with seeded/$id/patch.diff applied"; echo "exit=$E"; echo "$OUT" | grep -A2 '^VIOLATION' | cut -c1-600 | head -30; echo "$OUT" | grep "^$P quick" ; } > "seeded/$id/check_output.txt"
   N=$(echo "$OUT" | grep -c '^VIOLATION'); echo "$id exit=$E violations=$N"; [ "$E" = "1" ] && [ "$N" -ge 1 ] || RC=1
 done
 exit $RC
